@@ -309,6 +309,10 @@ def run(ctx):
         for ll in ((1, 3) if q else (1, 2, 3, 5, 8, 13)):
             tts = [rng.getrandbits(1 << N) for _ in range(3)]
             run_one(ctx, opname, tts, 0, natural=ll)
+    # quantification (method and the quantifier rows of `apply`) of order-sensitive functions
+    # of 6 variables while requests fire naturally: sifting MOVES the quantified variables
+    from . import C03
+    C03.reordering_stream(ctx, 6, 12 if q else 80, P='C09')
     # a decorated call whose RETRY (after the served request) raises a genuine error:
     # the caller sees that error and reordering is still enabled afterwards
     from . import C17
